@@ -316,6 +316,67 @@ def single_feature(feat, crates):
     return {"probes": [Probe(f"exact/{feat}", src, "run", group="exact")], "features": feat, "externs": ("gc_arena",) + tuple(sorted(crates)), "container_instances": n}
 
 
+UNLISTED_PROG = r'''#![forbid(unsafe_code)]
+#![allow(unused)]
+use gc_arena::{Arena, Collect, Gc, Mutation, Rootable};
+use std::sync::atomic::{AtomicBool, Ordering};
+static DROPPED: AtomicBool = AtomicBool::new(false);
+#[derive(Clone, Collect)]
+#[collect(require_static)]
+struct Tok(u8);
+impl Drop for Tok { fn drop(&mut self) { if self.0 == 1 { DROPPED.store(true, Ordering::SeqCst); } } }
+type G<'gc> = Gc<'gc, Tok>;
+type W<'gc> = /*TY*/;
+fn make<'gc>(mc: &Mutation<'gc>, g: G<'gc>) -> W<'gc> { /*CTOR*/ }
+fn main() {
+    let mut arena = Arena::<Rootable![W<'_>]>::new(|mc| make(mc, Gc::new(mc, Tok(1))));
+    arena.finish_cycle();
+    arena.finish_cycle();
+    if DROPPED.load(Ordering::SeqCst) {
+        println!("the root holds the value through a provided Collect impl, but the value was destructed: the impl does not report what it holds");
+        std::process::exit(1);
+    }
+    drop(arena);
+    if !DROPPED.load(Ordering::SeqCst) && !std::any::type_name::<W<'static>>().contains("ManuallyDrop") && !std::any::type_name::<W<'static>>().contains("MaybeUninit") {
+        // (dropping the arena destructs everything it holds)
+    }
+}
+'''
+UNLISTED = {
+    "Cow_borrowed_from_gc": ("std::borrow::Cow<'gc, Tok>", "std::borrow::Cow::Borrowed(Gc::as_ref(g))"),
+    "Reverse": ("std::cmp::Reverse<G<'gc>>", "std::cmp::Reverse(g)"),
+    "Wrapping": ("std::num::Wrapping<G<'gc>>", "std::num::Wrapping(g)"),
+    "Saturating": ("std::num::Saturating<G<'gc>>", "std::num::Saturating(g)"),
+    "Pin_Gc": ("std::pin::Pin<G<'gc>>", "std::pin::Pin::new(g)"),
+    "Pin_Box": ("std::pin::Pin<Box<G<'gc>>>", "Box::pin(g)"),
+    "Pin_Rc": ("std::pin::Pin<std::rc::Rc<G<'gc>>>", "std::rc::Rc::pin(g)"),
+    "ManuallyDrop": ("std::mem::ManuallyDrop<G<'gc>>", "std::mem::ManuallyDrop::new(g)"),
+    "MaybeUninit": ("std::mem::MaybeUninit<G<'gc>>", "std::mem::MaybeUninit::new(g)"),
+    "AssertUnwindSafe": ("std::panic::AssertUnwindSafe<G<'gc>>", "std::panic::AssertUnwindSafe(g)"),
+    "Poll": ("std::task::Poll<G<'gc>>", "std::task::Poll::Ready(g)"),
+    "ControlFlow_break": ("std::ops::ControlFlow<G<'gc>, ()>", "std::ops::ControlFlow::Break(g)"),
+    "ControlFlow_continue": ("std::ops::ControlFlow<(), G<'gc>>", "std::ops::ControlFlow::Continue(g)"),
+    "Bound": ("std::ops::Bound<G<'gc>>", "std::ops::Bound::Included(g)"),
+    "Range": ("std::ops::Range<G<'gc>>", "g..g"),
+    "iter_Once": ("std::iter::Once<G<'gc>>", "std::iter::once(g)"),
+    "option_IntoIter": ("std::option::IntoIter<G<'gc>>", "Some(g).into_iter()"),
+    "vec_IntoIter": ("std::vec::IntoIter<G<'gc>>", "vec![g].into_iter()"),
+    "Peekable": ("std::iter::Peekable<std::vec::IntoIter<G<'gc>>>", "vec![g].into_iter().peekable()"),
+    "OnceCell": ("std::cell::OnceCell<G<'gc>>", "{ let c = std::cell::OnceCell::new(); let _ = c.set(g); c }"),
+    "UnsafeCell": ("std::cell::UnsafeCell<G<'gc>>", "std::cell::UnsafeCell::new(g)"),
+    "Mutex": ("std::sync::Mutex<G<'gc>>", "std::sync::Mutex::new(g)"),
+    "RwLock": ("std::sync::RwLock<G<'gc>>", "std::sync::RwLock::new(g)"),
+    "sync_OnceLock": ("std::sync::OnceLock<G<'gc>>", "{ let c = std::sync::OnceLock::new(); let _ = c.set(g); c }"),
+    "rc_Weak": ("std::rc::Weak<G<'gc>>", "{ let r = std::rc::Rc::new(g); let w = std::rc::Rc::downgrade(&r); std::mem::forget(r); w }"),
+    "tuple_17": ("(u8, u8, u8, u8, u8, u8, u8, u8, u8, u8, u8, u8, u8, u8, u8, u8, G<'gc>)", "(0, 0, 0, 0, 0, 0, 0, 0, 0, 0, 0, 0, 0, 0, 0, 0, g)"),
+    "Box_dyn_Any": ("Box<dyn std::any::Any>", "{ let _ = g; Box::new(0u8) }"),
+    "ref_to_heap": ("&'gc Tok", "Gc::as_ref(g)"),
+    "Option_ref_to_heap": ("Option<&'gc Tok>", "Some(Gc::as_ref(g))"),
+    "Box_ref_to_heap": ("Box<&'gc Tok>", "Box::new(Gc::as_ref(g))"),
+    "Vec_ref_to_heap": ("Vec<&'gc Tok>", "vec![Gc::as_ref(g)]"),
+}
+
+
 def generate_one(tier, features):
     optional = features == "allf"
     ps = []
@@ -330,12 +391,18 @@ def generate_one(tier, features):
     ps.append(Probe("not_collect/static_collect_on_branded", NEG_HEAD + "struct B<'gc>(Gc<'gc, u32>);\ngc_arena::static_collect!(B<'gc>);\nfn f<'gc>() { assert_collect::<'gc, B<'gc>>(); }\nfn main() {}\n", "reject", group="not_collect"))
     ps.append(Probe("not_collect/static_collect_generic_branded", NEG_HEAD + "struct B<T>(T);\ngc_arena::static_collect!(<T> B<T>);\nfn f<'gc>() { assert_collect::<'gc, B<Gc<'gc, u32>>>(); }\nfn main() {}\n", "reject", group="not_collect"))
     ps.append(Probe("not_collect/twin/static_collect_plain", NEG_HEAD + "struct B(u32);\ngc_arena::static_collect!(B);\nfn f<'gc>() { assert_collect::<'gc, B>(); }\nfn main() {}\n", "accept", group="not_collect"))
+    # std wrappers / containers for which the crate provides NO impl today: if one appears, it must report what it holds
+    # (root = the wrapper around a pointer; two full cycles; the target must survive). Rejected today; accepted-and-exact is fine.
+    if not optional:
+        for name, (ty, ctor) in UNLISTED.items():
+            ps.append(Probe(f"unlisted/{name}", UNLISTED_PROG.replace("/*TY*/", ty).replace("/*CTOR*/", ctor), "reject_or_run", group="unlisted"))
+        ps.append(Probe("unlisted/control/option", UNLISTED_PROG.replace("/*TY*/", "Option<G<'gc>>").replace("/*CTOR*/", "Some(g)"), "run", group="unlisted"))
     n_cases = body(optional).count("chk!(") + body(optional).count("chkr!(")
     return {
         "probes": ps,
         "features": "allf" if optional else None,
         "externs": ("gc_arena", "hashbrown", "indexmap", "slotmap", "smallvec", "enum_map") if optional else ("gc_arena",),
-        "rule": f"one generated program ({n_cases} container instances, feature set {tag}): for every provided impl (pointers, Option, Result, tuples of arity 1..16, arrays, slices, Box, Rc, Arc, Vec, VecDeque incl. wrapped ring buffers, LinkedList, BinaryHeap, BTreeMap/Set, HashMap/Set, Lock, RefLock, OnceLock set/unset, SliceWithHeader" + (", hashbrown HashMap/HashSet/HashTable, indexmap IndexMap/IndexSet, slotmap SlotMap, SmallVec inline and spilled, EnumMap" if optional else "") + ") x every type-parameter position x every element position for sizes 0..3, a Gc (strong) or GcWeak in exactly that position: recording Trace multiset == pointers placed, through the NEEDS_TRACE gate; NEEDS_TRACE true whenever a parameter's is; one end-to-end survival program; negative probes: types that must not be Collect<'gc> (interior mutability, non-'static references, Static of branded types, foreign brands, raw pointers, hashers holding pointers, static_collect! on branded types) each with positive twins. evaluations = programs; container instances are counted in details",
+        "rule": f"{len(UNLISTED)} std wrappers / adaptors with no impl today (Cow borrowed from the heap, Reverse, Wrapping, Pin, ManuallyDrop, Poll, ControlFlow, Bound, iterators, std cells and locks, 17-tuples, references into the heap): each is either not Collect or a root holding a pointer through it keeps the target alive through two cycles; one generated program ({n_cases} container instances, feature set {tag}): for every provided impl (pointers, Option, Result, tuples of arity 1..16, arrays, slices, Box, Rc, Arc, Vec, VecDeque incl. wrapped ring buffers, LinkedList, BinaryHeap, BTreeMap/Set, HashMap/Set, Lock, RefLock, OnceLock set/unset, SliceWithHeader" + (", hashbrown HashMap/HashSet/HashTable, indexmap IndexMap/IndexSet, slotmap SlotMap, SmallVec inline and spilled, EnumMap" if optional else "") + ") x every type-parameter position x every element position for sizes 0..3, a Gc (strong) or GcWeak in exactly that position: recording Trace multiset == pointers placed, through the NEEDS_TRACE gate; NEEDS_TRACE true whenever a parameter's is; one end-to-end survival program; negative probes: types that must not be Collect<'gc> (interior mutability, non-'static references, Static of branded types, foreign brands, raw pointers, hashers holding pointers, static_collect! on branded types) each with positive twins. evaluations = programs; container instances are counted in details",
         "level": "exploration",
         "assumptions": ["pinned rustc 1.95", "sizes 0..3 per container; one pointer type (Gc<u32>) per position"],
         "container_instances": n_cases,
